@@ -154,7 +154,7 @@ def startup(chk):
 def keep_alive(chk):
     prog = chk.program
     rule = "O13.2"
-    ls = slots.load_services(prog)
+    ls = util.flat(prog, slots.load_services(prog))
     name = ls.qual
     ok = True
     if not ls.is_async:
